@@ -64,7 +64,7 @@ def compatible(item, strict=True):
     if item.ident.rust() in ('bool', 'isize', 'usize', 'u8', 'u16', 'u32', 'u64', 'u128', 'i8', 'i16', 'i32', 'i64', 'i128'):
         return False          # known findings KF-isize, KF-bool: the expansion names integer types and `bool` by bare tokens
     for pr in item.preds:
-        if not re.fullmatch(r"[A-Z]: (Super|'static)", pr.strip()):
+        if not re.fullmatch(r"[A-Z]: (Super|'static|my::\w+)", pr.strip()):
             return False
     for a in item.attrs:
         if a.kind == 'repr' and a.repr_[0] != 'idents':
@@ -330,12 +330,28 @@ def rust_probe(idx, item, cfg, qs, hostile=False):
                '    pub fn run() {\n        emit(format!("BEGIN|%d"));\n        %s\n    }\n}\n'
                % (idx, item.rust(), view_fn(item, targs), idx, body))
         return txt.replace('format!(', '::std::format!(').replace('-> String', '-> ::std::string::String')
+    src = mrules_item(idx, item) if hostile == 'mrules' else item.rust()
     if getattr(item, 'expect_error', None):
         return ('pub mod m%d {\n    use super::prelude::*;\n    use derive_where::derive_where;\n%s    %s\n    pub fn run() {}\n}\n'
-                % (idx, HOSTILE if hostile is True else '', item.rust()))
+                % (idx, HOSTILE if hostile is True else '', src))
     return ('pub mod m%d {\n    use super::prelude::*;\n    use derive_where::derive_where;\n%s    %s\n    %s\n'
             '    pub fn run() {\n        emit(format!("BEGIN|%d"));\n        %s\n    }\n}\n'
-            % (idx, HOSTILE if hostile is True else '', item.rust(), view_fn(item, targs), idx, body))
+            % (idx, HOSTILE if hostile is True else '', src, view_fn(item, targs), idx, body))
+
+
+def mrules_item(idx, item):
+    """The item written by a `macro_rules!` whose arguments are the field types: the attribute and the item's names come
+    from the macro's body, the types from its call site. `macro_rules!` hygiene applies to local variables: a temporary
+    of the expansion that takes its span from a field type instead of the call site is then unresolved (round 9)."""
+    import copy
+    it = copy.deepcopy(item)
+    args = []
+    for v in it.variants:
+        for f in v.fields:
+            args.append(f.ty)
+            f.ty = '$f%d' % (len(args) - 1)
+    params = ', '.join('$f%d:ty' % i for i in range(len(args)))
+    return 'macro_rules! dw_m%d { (%s) => { %s } }\n    dw_m%d!(%s);' % (idx, params, it.rust(), idx, ', '.join(args))
 
 
 CARGO = '''[package]
@@ -678,7 +694,7 @@ def attach(report, named_items, harness, render=lambda it: it.rust()):
 def run_b(cfg, named_items, hostile=False):
     """named_items: [(name, Item)] all `compatible`. Returns a report dict."""
     return attach(run_b_(cfg, named_items, hostile), named_items,
-                  'B-nip' if hostile == 'nip' else 'B-hostile' if hostile else 'B')
+                  'B-nip' if hostile == 'nip' else 'B-mrules' if hostile == 'mrules' else 'B-hostile' if hostile else 'B')
 
 
 def run_b_(cfg, named_items, hostile=False):
